@@ -161,6 +161,11 @@ def corpus():
                [["chr2", "9", "9"], ["chr1", "1", "1"], ["chr10", "10", "10"], ["chr2", "10", "10"], ["chr10", "9", "9"], ["chr1", "2", "2"],
                 ["chr2", "1", "1"]], cap=3),
         _ucase(["#sort.order Coordinate"], ["Coordinate", None], [["chr1", p, p] for p in ("2", "3", "1", "4")], cap=1),
+        # two-digit contig ranks on the writer path
+        _ucase(["#sort.order Coordinate", "#contigs " + ",".join(C.CHR_LONG)], ["Coordinate", C.CHR_LONG],
+               [["chr11", "1", "1"], ["chrX", "1", "1"], ["chr3", "5", "5"], ["chr10", "2", "2"], ["chr9", "7", "7"], ["chr2", "1", "1"]]),
+        _ucase(["#contigs " + ",".join(C.CHR_LONG), "#sort.order BarcodesAndCoordinate"], ["BarcodesAndCoordinate", C.CHR_LONG],
+               [["chr21", "1", "1"], ["chr3", "1", "1"], ["chr12", "5", "5"], ["chr2", "2", "2"]], cap=2),
     ]
 
 
